@@ -90,6 +90,29 @@ def _is_match(current_instruction: Optional[Instruction], regex: List[Instructio
     return True
 
 
+def _reachable_instructions(start: Instruction) -> List[Instruction]:
+    """Return the instructions reachable from start, in depth first order.
+
+    Args:
+        start: The first instruction.
+
+    Returns:
+        Instructions reachable from start (including it) following the next instructions.
+    """
+    reachable: List[Instruction] = []
+    seen: Set[Instruction] = set()
+    stack: List[Instruction] = [start]
+    while stack:
+        ins = stack.pop()
+        if ins in seen:
+            continue
+        seen.add(ins)
+        reachable.append(ins)
+        # reversed: the first next instruction is explored first
+        stack.extend(reversed(ins.next))
+    return reachable
+
+
 def _find_instructions(
     current_instruction: Instruction,
     regex: List[Instruction],
@@ -97,41 +120,32 @@ def _find_instructions(
     matches: List[List[Instruction]],
     covered: Set[Instruction],
 ) -> bool:
-    if current_instruction in visited:
-        return False
+    reachable = _reachable_instructions(current_instruction)
+    visited.update(reachable)
 
-    visited.add(current_instruction)
-
-    reaches = False
-
-    if _is_match(current_instruction, regex):
+    for ins in reachable:
+        if not _is_match(ins, regex):
+            continue
         match: List[Instruction] = []
-        current = current_instruction
+        current = ins
         for _ in range(0, len(regex) - 1):
-
-            if not current:
-                break
             match.append(current)
-
-            if len(current.next) != 1:
-                print(f"Regex cannot work on branching instructions {current_instruction}")
-                return False
             current = current.next[0]
-
         match.append(current)
         matches.append(match)
-        reaches = True
 
-    for next_ins in current_instruction.next:
-
-        if next_ins in covered:
-            continue
-
-        if _find_instructions(next_ins, regex, visited, matches, covered):
-            covered.add(current_instruction)
-            reaches = True
-
-    return reaches
+    # an instruction is covered if a match can be reached from one of its next instructions
+    reaching: Set[Instruction] = set(match[0] for match in matches)
+    worklist: List[Instruction] = list(reaching)
+    while worklist:
+        ins = worklist.pop()
+        for prev_ins in ins.prev:
+            if prev_ins in visited and prev_ins not in covered:
+                covered.add(prev_ins)
+                if prev_ins not in reaching:
+                    reaching.add(prev_ins)
+                    worklist.append(prev_ins)
+    return len(matches) != 0
 
 
 def match_regex(contract: Teal, regex: Regex) -> Tuple[List[List[Instruction]], Set[Instruction]]:
